@@ -170,6 +170,8 @@ def part_framing(res, rng, driver, tier):
                     "key": {"kind": "segmentation-dependent", "cls": cls},
                     "what": f"{cls} protocol: stream {stream!r} cut at {cuts} delivers {got!r}, unsplit {whole!r}",
                     "replay": {"part": "framing", "stream": stream.hex(), "cuts": cuts, "cls": cls}})
+            if len(stream) > 9000:
+                continue        # oracle only: the interpreted model is quadratic in the pending length
             if len(ops) < (6000 if tier == "quick" else 60000) or len(chunks) > 3:
                 ops.append("FRAME " + " ".join(hexs(c) for c in chunks))
                 impl.append((got, stream))
